@@ -75,7 +75,8 @@ Definition dp_leaves (e : dp_env) : list dp_leaf :=
 Definition dp_hlabel (id : Z) (l : label) : bool :=
   match l with
   | HResp i | HReadFail i _ | HArgWriter i _ | HFlush i _ | HFlushSel i _
-  | HNewFrag i | HClose i _ | HDone i | HSysErr i _ | HSetAppErr i | HBlackhole i => i =? id
+  | HNewFrag i | HClose i _ | HDone i | HSysErr i _ | HSetAppErr i | HBlackhole i
+  | HHelperWrite i _ _ => i =? id
   | _ => false
   end.
 
